@@ -20,6 +20,7 @@ from concurrent.futures import ThreadPoolExecutor
 CID = "C19"
 WORK = V.BUILD / "work" / CID
 KNOWN_TAG = "cross-clock-before-fifo"
+OFFSETS = collections.Counter()     # (state offset of PA's output, of the zero-width signal) as reported by the harness
 
 # ----------------------------------------------------------------------------- generator
 FREQ_PAIRS = [("1/1", "1/1"), ("1/1", "1/1"), ("2/1", "3/1"), ("3/1", "2/1"), ("1/1", "2/1"), ("2/1", "1/1"),
@@ -30,6 +31,24 @@ DURS = ["0/1", "0/1", "1/2", "1/3", "1/1", "2/3", "1/6", "3/2", "1/4", "2/1", "5
 
 def frac(fr):
     return f"{fr.numerator}/{fr.denominator}"
+
+
+def gen_watch(rng):
+    """ordered sensitivity list: signals 0 RA 1 RA2 2 RB 3 C 4 PA (first allocated, state offset 0) 5 Z (zero width) 6 C[3:0] 7 C[7:4];
+    zero-width entry first / in the middle / alone, duplicates, different orders, empty list"""
+    k = rng.random()
+    if k < 0.05:
+        return "H-"
+    if k < 0.10:
+        return "H5" if rng.random() < 0.5 else "H5.5"
+    base = rng.sample([0, 1, 2, 3, 4, 4, 6, 7, 3], rng.randrange(1, 4))
+    if k < 0.45:
+        base.insert(rng.choice([0, 0, len(base), rng.randrange(len(base) + 1)]), 5)     # zero width, often FIRST
+    if rng.random() < 0.3:
+        base.insert(rng.randrange(len(base) + 1), rng.choice(base))                      # duplicate
+    if rng.random() < 0.25:
+        base = [5, 4] if rng.random() < 0.5 else [4, 5]                                  # the order pair of one observer set
+    return "H" + ".".join(str(x) for x in base)
 
 
 def gen_step(rng, two, nsubs, toplevel, sub_index, style, nextra=0, periods=()):
@@ -51,11 +70,11 @@ def gen_step(rng, two, nsubs, toplevel, sub_index, style, nextra=0, periods=()):
     if r < 0.46:
         return "T" + rng.choice(DURS)
     if r < 0.54:
-        return "H" + str(rng.choice([1, 2, 4, 8, 8, 9, 5, 15, 3, 0]))
+        return gen_watch(rng)
     if r < 0.60:
         return "S"
     if r < 0.76:
-        return "R" + str(rng.randrange(4))
+        return "R" + str(rng.randrange(8))
     if r < 0.92:
         return "W" + str(rng.randrange(2)) + "=" + str(rng.randrange(256))
     if r < 0.97:
@@ -154,7 +173,11 @@ def run_real(exe, mode, casefile, tag, timeout=600, env=None):
     rc, log = V.run([exe, mode, str(casefile), str(out)], timeout=timeout, env=env)
     if rc != 0 or not out.exists():
         return None, f"harness {mode} rc={rc}: {log[-800:]}", log
-    return split_output(out.read_text()), None, log
+    txt = out.read_text()
+    m = re.search(r"^# offsets pa=(-?\d+) z=(-?\d+)", txt, re.M)
+    if m:
+        OFFSETS[(int(m.group(1)), int(m.group(2)))] += 1
+    return split_output(txt), None, log
 
 
 def run_model(drv, mode, casefile, tb=""):
@@ -241,6 +264,15 @@ def oracle(case, lines):
     pins = {0: None, 1: None}            # last written value
     pin_writes = {0: [], 1: []}          # (index, time, phase, value)
     c_eval = None
+    pa_eval = None                       # output of pin PA as of the last evaluation
+
+    def sigvals():
+        lo = None if c_eval is None else (c_eval & 15)
+        hi = None if c_eval is None else (c_eval >> 4)
+        return [regs["RA"], regs["RA2"], regs["RB"], c_eval, pa_eval, 0, lo, hi]
+
+    def wlist(what):
+        return [] if what == "H-" else [int(x) for x in what[1:].split(".")]
     seg_owner = {}                       # pid -> dict(kind of last wake, clock, phase, time, index)
     susp = {}                            # pid -> (index, what, time, Vline)
     edge_at = {}                         # (clk, time) -> index of rising E line
@@ -262,6 +294,10 @@ def oracle(case, lines):
         if k == "L":
             tm, ph, mt, ro, pid, what = Fr(t[1]), t[2], int(t[3]), t[4] == "1", int(t[5][1:]), t[6]
             arg = t[7] if len(t) > 7 else ""
+            if ro:
+                # the state is being committed: everything has been evaluated (powerOn evaluates after starting the processes
+                # without an M line)
+                c_eval = vxor(pins[0], regs["RA"]); pa_eval = pins[0]
             if ph in "BD" and tm in flank_times:
                 viol.append(dict(rule=f"R1 a process acted in phase {ph} of time {tm} after a clock flank of that time had been served", line=i, text=l))
             if what == "susp":
@@ -359,7 +395,7 @@ def oracle(case, lines):
                 susp.pop(pid, None)
             elif what.startswith("R"):
                 sg, v = int(what[1]), parse_val(what.split("=")[1])
-                exp = [regs["RA"], regs["RA2"], regs["RB"], c_eval][sg]
+                exp = sigvals()[sg]
                 stats["reads"] += 1
                 own = seg_owner.get(pid)
                 if own and own["e"] is not None and sg < 3:
@@ -404,16 +440,20 @@ def oracle(case, lines):
                                           f"(writes of phase DURING at {tm} excluded)", line=i, text=l, expected=v, observed=obs[r]))
                 regs[r] = obs[r]
         elif k == "M":
-            c_eval = vxor(pins[0], regs["RA"])
-            cur = [regs["RA"], regs["RA2"], regs["RB"], c_eval]
+            c_eval = vxor(pins[0], regs["RA"]); pa_eval = pins[0]
+            cur = sigvals()
             for pid, s in susp.items():
                 if s["what"][0] == "H" and "v" in s and "fired" not in s:
-                    mask = int(s["what"][1:])
-                    now = [cur[b] for b in range(4) if mask & (1 << b)]
+                    now = [cur[b] for b in wlist(s["what"])]
                     if now != s["v"]:
                         s["fired"] = (i, Fr(t[1]))
+                        stats["watch_changes_detected"] += 1
+                        if 5 in wlist(s["what"]):
+                            stats["watch_changes_detected_list_with_zero_width"] += 1
+                        if wlist(s["what"]) and wlist(s["what"])[0] == 5:
+                            stats["watch_changes_detected_zero_width_first"] += 1
         elif k == "C":
-            c_eval = vxor(pins[0], regs["RA"])
+            c_eval = vxor(pins[0], regs["RA"]); pa_eval = pins[0]
             obs = [parse_val(x) for x in t[2:6]]
             exp = [regs["RA"], regs["RA2"], regs["RB"], c_eval]
             stats["commits"] += 1
@@ -426,6 +466,16 @@ def oracle(case, lines):
             stats["readonly_exception"] += 1
     if err_expected:
         viol.append(dict(rule="R6 write in read-only mode (after WaitStable) did not throw", line=len(lines), text=""))
+    # R5 (completeness): a watched signal of width >= 1 changed, so the process has to be resumed at that instant,
+    # whatever else is in its sensitivity list and in whichever order
+    ended_by_exception = any(x.startswith("X ") for x in lines)
+    for pid, s in susp.items():
+        if s["what"][0] == "H" and "fired" in s and not s.get("wait_v") and not ended_by_exception:
+            later = [x for x in lines[s["fired"][0] + 1:] if x.split()[0] in "LEMC" and Fr(x.split()[1]) > s["fired"][1]]
+            if later:
+                viol.append(dict(rule=f"R5 WaitChange over {s['what']} was NOT resumed although a watched signal changed "
+                                      f"(snapshot {s.get('v')}) at time {s['fired'][1]}", line=s["fired"][0], text=lines[s["fired"][0]],
+                                 suspended_at_line=s["i"]))
     # R4
     for key, g in groups.items():
         if len(g) > 1:
@@ -813,6 +863,8 @@ def main():
     cov["trigger_tie_bits_consumed_by_model"] = agg["ties"]
     cov["tie_search_model_runs"] = agg["tie_search_runs"]
     cov["known_finding_occurrences"] = agg.get("known_total", 0) + len([k for k in oracle_known if k["case"][0].split()[1].startswith(("fifo_cross", "cross_clock"))])
+    cov["state_offsets_pa_z"] = {f"pa={k[0]} z={k[1]}": v for k, v in OFFSETS.items()}
+    cov["first_allocated_signal_is_watchable"] = bool(OFFSETS) and all(k[0] == 0 for k in OFFSETS)
     cov["source_guard"] = guard or "Event::operator< chain and enum orders match the transcription"
     cov["search_mode"] = search_info
     cov["thread_sanitizer"] = tsan
